@@ -519,6 +519,22 @@ def headers_oracle(data, cfg):
     return (tuple(headers), scheme)
 
 
+def _ambiguous(headers):
+    seen = {}
+    out = set()
+    for h in headers:
+        if isinstance(h, tuple) and len(h) == 2 and isinstance(h[0], str):
+            k = h[0].replace("-", "_")
+            if seen.setdefault(k, h[0]) != h[0]:
+                out |= {seen[k], h[0]}
+    return out
+
+
+def _subseq(a, b):
+    it = iter(b)
+    return all(any(x == y for y in it) for x in a)
+
+
 def headers_table(ctx, rid, part):
     """evaluated: Message.parse_headers on concrete header blocks under concrete parser settings and peers, compared
     with headers_oracle.  `part` selects the family of cases a rule is about: 'grammar' (every byte value inside the
@@ -556,9 +572,13 @@ def headers_table(ctx, rid, part):
     elif part == "trust":
         blocks = [b"X-Forwarded-Proto: https", b"X-Forwarded-Proto: http", b"X-Forwarded-Proto: https\r\nX-Forwarded-Ssl: on", b"X-Forwarded-Proto: https\r\nX-Forwarded-Ssl: off",
                   b"X-Forwarded-Proto: http\r\nX-Forwarded-Proto: https", b"X-Forwarded-Proto: https\r\nX-Forwarded-Proto: https", b"X-Forwarded-Ssl: on\r\nHost: x", b"SCRIPT_NAME: /s\r\nHost: x",
-                  b"PATH_INFO: /p", b"X_OTHER: 1\r\nHost: x", b"Host: x"]
+                  b"PATH_INFO: /p", b"X_OTHER: 1\r\nHost: x", b"Host: x",
+                  # the hyphen spelling of a forwarder header next to the forwarder's own (one environ variable for both)
+                  b"Script-Name: /evil\r\nSCRIPT_NAME: /admin", b"SCRIPT_NAME: /admin\r\nScript-Name: /evil", b"Remote-User: admin\r\nREMOTE_USER: alice\r\nHost: x",
+                  b"Script-Name: /a\r\nScript-Name: /b", b"SCRIPT_NAME: /a\r\nSCRIPT_NAME: /b"]
         for ov in ({}, {"peer": ("10.0.0.9", 1)}, {"peer": ""}, {"forwarded_allow_ips": ("*",), "peer": ("10.0.0.9", 1)}, {"from_trailer": True}, {"forwarder_headers": ("*",)},
-                   {"forwarder_headers": ("*",), "peer": ("10.0.0.9", 1)}, {"forwarded_allow_ips": (), "peer": ("127.0.0.1", 5)}, {"header_map": "refuse", "peer": ("10.0.0.9", 1)}, {"scheme": "https", "peer": ("10.0.0.9", 1)}):
+                   {"forwarder_headers": ("*",), "peer": ("10.0.0.9", 1)}, {"forwarded_allow_ips": (), "peer": ("127.0.0.1", 5)}, {"header_map": "refuse", "peer": ("10.0.0.9", 1)}, {"scheme": "https", "peer": ("10.0.0.9", 1)},
+                   {"header_map": "refuse"}, {"header_map": "refuse", "forwarder_headers": ("REMOTE_USER",)}, {"header_map": "dangerous", "forwarder_headers": ("*",)}):
             cases += [(b, ov) for b in blocks]
     elif part == "limits":
         long = b"X-Pad: " + b"a" * 30
@@ -596,6 +616,13 @@ def headers_table(ctx, rid, part):
                 got.add(o.kind)
         want = headers_oracle(data, cfg)
         okrow = got == {want}
+        amb = _ambiguous(want[0]) if isinstance(want, tuple) and cfg["header_map"] != "dangerous" else None
+        if amb:
+            # two differently spelled names that the environ key map (`-` -> `_`) sends to one variable, both admissible on
+            # their own (a forwarder header of a trusted peer and its hyphen spelling): outside header_map=dangerous they
+            # must not both be kept.  How is the server's choice: the request is refused, or fields are left out
+            okrow = bool(got) and all(o_ == "reject" or (isinstance(o_, tuple) and isinstance(o_[0], tuple) and not _ambiguous(o_[0]) and _subseq(o_[0], want[0]) and o_[1] == want[1]) for o_ in got)
+            want = "reject, or %s without one of the spellings %s (header_map=%s: two field names never share an environ variable)" % (want[0], sorted(amb), cfg["header_map"])
         if len(rows) < 25 or not okrow:
             rows.append({"block": repr(data[:70]), "settings": {k: v for k, v in ov.items()}, "outcome": sorted(map(str, got))[:3], "required": str(want)[:200]})
         ctx.check(rid, okrow, key(f, "headers|%s|%r|%s" % (part, data[:60], sorted(ov.items()))), site(f, text="header block %r with %s" % (data[:70], ov or "default settings")),
